@@ -56,12 +56,6 @@ Record query := {
   q_limit : option Z                         (* LIMIT n without ORDER BY: any n rows of the result *)
 }.
 
-Definition has_window (q:query) : bool := negb (q_asof q =? 0) || negb (q_until q =? 0).
-Definition needs_group (T:table) (q:query) : bool :=
-  has_window q || negb ((q_period q =? 0) || (q_period q =? t_res T))
-  || match q_groupby q with Some (Some _) => true | _ => false end
-  || match q_fields q with Some _ => true | None => false end.
-
 (* planner: default window (asOf, until] of a table and the query's rounded bounds *)
 Definition tbl_until (T:table) (now:Z) : Z := round_up now (t_res T).
 Definition tbl_asof (T:table) (now:Z) : Z := round_up (tbl_until T now - t_ret T) (t_res T).
@@ -78,6 +72,14 @@ Definition q_period' (T:table) (q:query) : Z :=
 Definition q_asof' (T:table) (q:query) : Z :=
   let u := q_until' T q in let a := q_asof0 T q in let p := q_period' T q in
   if u - a <? p then u - p else a.
+
+Definition has_window (q:query) : bool := negb (q_asof q =? 0) || negb (q_until q =? 0).
+(* planLocal's needsGroupBy: asOf/until changed, resolution (after truncation to the window) differs from
+   the table's, explicit dims, or specific fields *)
+Definition needs_group (T:table) (q:query) : bool :=
+  has_window q || negb (q_period' T q =? t_res T)
+  || match q_groupby q with Some (Some _) => true | _ => false end
+  || match q_fields q with Some _ => true | None => false end.
 
 (* planning errors: asOf before the table's asOf; period not a multiple of the resolution *)
 Definition plan_error (T:table) (q:query) : bool :=
